@@ -34,10 +34,17 @@ class CreateKnowledgeBase(ASTNode):
         self.if_not_exists = if_not_exists
         self.from_query = from_select
 
+    @staticmethod
+    def value_str(value):
+        # model / storage are identifiers, but USING accepts any constant
+        if isinstance(value, ASTNode):
+            return value.to_string()
+        return repr(value)
+
     def to_tree(self, *args, level=0, **kwargs):
         ind = indent(level)
-        storage_str = f"{ind} storage={self.storage.to_string()},\n" if self.storage else ""
-        model_str = f"{ind} model={self.model.to_string()},\n" if self.model else ""
+        storage_str = f"{ind} storage={self.value_str(self.storage)},\n" if self.storage else ""
+        model_str = f"{ind} model={self.value_str(self.model)},\n" if self.model else ""
         out_str = f"""
         {ind}CreateKnowledgeBase(
         {ind}    if_not_exists={self.if_not_exists},
@@ -55,9 +62,9 @@ class CreateKnowledgeBase(ASTNode):
 
         using_ar = []
         if self.storage:
-            using_ar.append(f"  STORAGE={self.storage.to_string()}")
+            using_ar.append(f"  STORAGE={self.value_str(self.storage)}")
         if self.model:
-            using_ar.append(f"  MODEL={self.model.to_string()}")
+            using_ar.append(f"  MODEL={self.value_str(self.model)}")
 
         params = self.params.copy()
         if params:
